@@ -12,7 +12,7 @@
     containing every account involved ([Closed U run]: every account the interpreter writes). *)
 From Coq Require Import List ZArith NArith Bool.
 From Kardia Require Import Base.Int64 C09.Model C09.ProofsBase C09.ProofsVM C09.ProofsTx
-  C09.ProofsWrap C09.ProofsExamples Generated.C09Facts.
+  C09.ProofsWrap C09.ProofsNonneg C09.ProofsExamples Generated.C09Facts.
 Import ListNotations.
 Local Open Scope Z_scope.
 
@@ -173,14 +173,41 @@ Proof.
 Qed.
 Print Assumptions C09_intrinsic_no_overflow.
 
+(** nothing appears: if the interpreter never overdraws an account ([RunNonneg]), balances stay
+    non-negative and the destroyed amount is non-negative, so the balance sum never increases *)
+Theorem C09_no_value_created :
+  forall run ca, ExecOK run -> RunNonneg run ->
+  forall e s pool m s' pool' r,
+    wf_msg m -> 0 <= pool < two64 -> 0 <= st_refund s -> nonneg s ->
+    apply_transaction64 run ca e s pool m = Executed s' pool' r ->
+    nonneg s' /\ 0 <= x_burnt r.
+Proof. exact executed_nonneg. Qed.
+Print Assumptions C09_no_value_created.
+
+(** exactly the valid transactions are executed (so "rejected" means one of the listed reasons,
+    and "executed" is not vacuous) *)
+Theorem C09_executed_iff_valid :
+  forall run ca, ExecOK run ->
+  forall e s pool m,
+    wf_msg m -> data_ok (m_data m) -> 0 <= pool < two64 -> 0 <= st_refund s ->
+    ((exists s' pool' r, apply_transaction64 run ca e s pool m = Executed s' pool' r)
+     <-> valid_tx e s pool m).
+Proof.
+  intros run ca OK e s pool m Hm Hd Hp Hr. split.
+  - intros (s' & pool' & r & H). exact (executed_valid run ca OK e s pool m s' pool' r Hm Hp Hr H).
+  - exact (valid_executes run ca OK e s pool m Hm Hd Hp Hr).
+Qed.
+Print Assumptions C09_executed_iff_valid.
+
 (** the hypotheses are satisfiable *)
 Theorem C09_hypotheses_satisfiable :
-  ExecOK run_ex /\ wf_msg msg_ex /\
+  (ExecOK run_idle /\ RunNonneg run_idle) /\ ExecOK run_ex /\ wf_msg msg_ex /\
   match apply_transaction64 run_ex ca_ex env_ex st_ex 100000 msg_ex with
   | Executed s' pool' r => x_used r = 21172 /\ pool' = 100000 - 21172 /\ nonce s' 1%N = 6
   | _ => False
   end.
 Proof.
+  split; [split; [exact run_idle_ok|exact run_idle_nonneg]|].
   split; [exact run_ex_ok|]. split; [exact msg_ex_wf|].
   pose proof ex_executed as H.
   destruct (apply_transaction64 run_ex ca_ex env_ex st_ex 100000 msg_ex); try exact H.
